@@ -11,6 +11,7 @@ import (
 	"os/exec"
 	"runtime"
 	"sort"
+	"strconv"
 	"strings"
 	"time"
 )
@@ -205,7 +206,10 @@ func runStream(s Stream, property string, seed int64, n int, thorough bool, gmod
 	keys := make([]string, len(cases))
 	lines := make([]string, len(cases))
 	if iso, ok := s.(Isolated); ok && os.Getenv("VERIF_WORKER") == "" {
-		runIsolated(s.Name(), cases, iso.CaseTimeout(), impls)
+		// (VERIF_DEADLINE, unix seconds: no new case is started after it - the search phase of a check on a changed
+		// tree must end even when every case runs into its timeout; what was not run is not reported at all)
+		done := runIsolated(s.Name(), cases, iso.CaseTimeout(), impls)
+		cases, impls, keys, lines = cases[:done], impls[:done], keys[:done], lines[:done]
 	} else {
 		for i, c := range cases {
 			impls[i] = safely(func() string { return s.Impl(c) })
@@ -364,9 +368,17 @@ func workerMain(s Stream) {
 // workerBin is the binary used for worker subprocesses (the race-enabled build for C15).
 var workerBin = os.Args[0]
 
-func runIsolated(stream string, cases []Case, perCase time.Duration, impls []string) {
+func runIsolated(stream string, cases []Case, perCase time.Duration, impls []string) int {
+	var deadline time.Time
+	if v, err := strconv.ParseInt(os.Getenv("VERIF_DEADLINE"), 10, 64); err == nil && v > 0 {
+		deadline = time.Unix(v, 0)
+	}
+	past := func() bool { return !deadline.IsZero() && time.Now().After(deadline) }
 	next := 0
 	for next < len(cases) {
+		if past() {
+			return next
+		}
 		cmd := exec.Command(workerBin, "-worker", "-stream", stream)
 		cmd.Env = append(os.Environ(), "VERIF_WORKER=1", "GORACE=halt_on_error=1")
 		stdin, _ := cmd.StdinPipe()
@@ -377,7 +389,7 @@ func runIsolated(stream string, cases []Case, perCase time.Duration, impls []str
 			for ; next < len(cases); next++ {
 				impls[next] = "worker-start-failed"
 			}
-			return
+			return len(cases)
 		}
 		base := next
 		go func() {
@@ -402,6 +414,11 @@ func runIsolated(stream string, cases []Case, perCase time.Duration, impls []str
 		}()
 		dead := false
 		for !dead && next < len(cases) {
+			if past() {
+				_ = cmd.Process.Kill()
+				_ = cmd.Wait()
+				return next
+			}
 			timer := time.NewTimer(perCase)
 			select {
 			case m, ok := <-msgs:
@@ -445,6 +462,7 @@ func runIsolated(stream string, cases []Case, perCase time.Duration, impls []str
 		_ = cmd.Process.Kill()
 		_ = cmd.Wait()
 	}
+	return len(cases)
 }
 
 func firstLines(s string, n int) string {
